@@ -37,6 +37,9 @@ NO_SHARD = False
 THOROUGH_WATCHDOG_S = 5400
 
 START, END = "autocopy_start.txt", "autocopy_end.txt"
+# not part of the dataset: the two markers, and the README-like files of a 'mostly zips' source folder (whether an
+# implementation copies them along or not is not fixed by the property)
+_NOT_DATA = (START, END, "README.md", "LICENSE", "notes.txt")
 _MUT_EVENTS = {"os.mkdir", "os.rmdir", "os.remove", "os.rename", "os.utime", "os.chmod", "os.chown", "os.link", "os.symlink", "os.truncate",
                "shutil.copyfile", "shutil.copymode", "shutil.copystat", "shutil.copytree", "shutil.rmtree", "shutil.move", "os.replace"}
 _FS_EVENTS = _MUT_EVENTS | {"open", "os.listdir", "os.scandir"}
@@ -96,6 +99,10 @@ def _make_source(root, scn):
         expected = dict(files)
     else:
         src.mkdir(parents=True, exist_ok=True)
+        if fmt == "zips_half":
+            # 'mostly zips' is documented as len(zips) >= len(items) // 2 (README-like files are allowed): 3 zips + 3 other files
+            for extra in ("README.md", "LICENSE", "notes.txt"):
+                (src / extra).write_bytes(b"not part of the dataset: " + extra.encode())
         for zname, content in _files("zips").items():
             with zipfile.ZipFile(src / zname, "w") as z:
                 for r, d in content.items():
@@ -134,7 +141,7 @@ def _snapshot(dst):
 def _state_shape(snap, expected):
     if snap is None:
         return "absent"
-    body = {k: v for k, v in snap.items() if k not in (START, END)}
+    body = {k: v for k, v in snap.items() if k not in _NOT_DATA}
     full = body == expected
     return f"dir{'+start' if START in snap else ''}{'+end' if END in snap else ''}:{'complete' if full else 'empty' if not body else 'partial'}"
 
@@ -177,7 +184,7 @@ def _call_in_child(root, scn, kill_at=None, workers=0):
 def _scenarios():
     out = []
     for fn in ("folder", "imagefolder"):
-        for fmt in ("raw", "zip", "zips"):
+        for fmt in ("raw", "zip", "zips", "zips_half"):
             for rel in (None, "sub/ds"):
                 for parent in (True, False):
                     out.append({"fn": fn, "fmt": fmt, "rel": rel, "parent": parent})
@@ -235,6 +242,8 @@ def gen_cases(run):
                 yield {"scn": scn, "kills": [k], "n": n}
         # chains of deaths
         small = scn["fmt"] == "zip" and scn["rel"] is None
+        if scn["fmt"] == "zips_half" and (scn["rel"] is not None or not scn["parent"]):
+            continue  # the boundary format is swept for the plain path variant only
         if run.tier == "thorough" and small:
             for k1 in range(1, n + 1):
                 for k2 in range(1, n + 8):
@@ -285,11 +294,11 @@ def _check_result_truth(run, scn, res, pre_shape, what):
         return False
     if r.get("was_copied"):
         if scn["fn"] == "folder":
-            if r.get("source_format") != scn["fmt"]:
+            if r.get("source_format") != scn["fmt"].split("_")[0]:
                 run.violation("result:source_format", f"{what}: source_format={r.get('source_format')!r} for a '{scn['fmt']}' source")
                 return False
         else:
-            if (bool(r.get("was_zip")), bool(r.get("was_zip_classwise"))) != (scn["fmt"] == "zip", scn["fmt"] == "zips"):
+            if (bool(r.get("was_zip")), bool(r.get("was_zip_classwise"))) != (scn["fmt"] == "zip", scn["fmt"].startswith("zips")):
                 run.violation("result:source_format", f"{what}: was_zip={r.get('was_zip')}, was_zip_classwise={r.get('was_zip_classwise')} for a '{scn['fmt']}' source")
                 return False
     return True
@@ -340,7 +349,7 @@ def run_case(run, spec):
             notes = run.notes.setdefault("distinct_post_crash_states", [])
             if shape not in notes:
                 notes.append(shape)
-            if snap is not None and START in snap and END in snap and {a: b for a, b in snap.items() if a not in (START, END)} != expected:
+            if snap is not None and START in snap and END in snap and {a: b for a, b in snap.items() if a not in _NOT_DATA} != expected:
                 run.violation("state:looks-complete-but-is-not", f"{_desc(scn)} kills={spec['kills']}: after attempt {j + 1} both markers exist but the tree is incomplete")
                 return
             if res["status"] == "returned":
@@ -365,7 +374,7 @@ def run_case(run, spec):
             return
         run.count("recovery_calls_checked")
         post = _snapshot(dst)
-        body = {a: b for a, b in (post or {}).items() if a not in (START, END)}
+        body = {a: b for a, b in (post or {}).items() if a not in _NOT_DATA}
         if body != expected:
             missing = sorted(set(expected) - set(body))[:5]
             extra = sorted(set(body) - set(expected))[:5]
@@ -458,7 +467,7 @@ def _run_strace(run, spec):
         notes = run.notes.setdefault("distinct_post_crash_states_syscall_level", [])
         if shape not in notes:
             notes.append(shape)
-        if snap is not None and START in snap and END in snap and {a: b for a, b in snap.items() if a not in (START, END)} != expected:
+        if snap is not None and START in snap and END in snap and {a: b for a, b in snap.items() if a not in _NOT_DATA} != expected:
             run.violation("state:looks-complete-but-is-not", f"{_desc(scn)} after a syscall-level death at mutating syscall {when}/{n_sys}: both markers exist but the tree is incomplete")
             return
         res = _call_in_child(root, scn)
@@ -467,7 +476,7 @@ def _run_strace(run, spec):
             return
         run.count("recovery_calls_checked")
         post = _snapshot(dst)
-        body = {a: b for a, b in (post or {}).items() if a not in (START, END)}
+        body = {a: b for a, b in (post or {}).items() if a not in _NOT_DATA}
         if body != expected:
             key = "returns-on-incomplete-copy"
             if shape.startswith("dir") and "+start" not in shape:
